@@ -137,6 +137,50 @@ def run(chk, tier, seed):
                           {"kind": "overload", "source": j["src"], "expected": want, "observed": got, "variant": vi,
                            "cands": c["cands"], "args": c["args"]},
                           finding_key="overload:%s|%s" % (sorted(x["tag"] for x in c["cands"]), json.dumps(c["args"])))
+    # deep call sites: the same candidate set split over two enclosing function levels, several calls from a
+    # function nested below both (captures from different ancestor depths; the choice may not depend on which
+    # call was compiled first)
+    groups = {}
+    for c in cases:
+        if c["res"]["r"] == "unique":
+            groups.setdefault(tuple(sorted(x["tag"] for x in c["cands"])), []).append(c)
+    keys = [k for k in sorted(groups) if len(k) >= 2 and len(groups[k]) >= 2]
+    if len(keys) > (400 if tier == "quick" else 4000):
+        keys = rnd.sample(keys, 400 if tier == "quick" else 4000)
+    dj, dmeta = [], {}
+    for gi, k in enumerate(keys):
+        g = groups[k]
+        cands = [dict(x) for x in g[0]["cands"]]
+        lv = [0, 1] + [rnd.choice([0, 1]) for _ in cands[2:]]
+        rnd.shuffle(lv)
+        for x, l in zip(cands, lv):
+            x["lvl"] = l
+        calls = {}
+        for c in g:
+            calls.setdefault(json.dumps(c["args"]), (c["args"], c["res"]["tag"]))
+        calls = list(calls.values())[:6]
+        for vi, order in enumerate([calls, list(reversed(calls))]):
+            outer = "".join("    " + cand_decl("ov", c, {}, "a") + "\n" for c in cands if c["lvl"] == 0)
+            inner = "".join("        " + cand_decl("ov", c, {}, "a") + "\n" for c in cands if c["lvl"] == 1)
+            body = ", ".join("ov(%s)" % ", ".join(arg_src(a) for a in args) for args, _ in order)
+            src = ("fn top()->Sequence<int> {\n%s    fn site()->Sequence<int> {\n%s        fn deep()->Sequence<int> {\n            [%s]\n        }\n        deep()\n    }\n    site()\n}\nlet r = top();\n"
+                   % (outer, inner, body))
+            jid = "d%d_%d" % (gi, vi)
+            dj.append({"id": jid, "src": src, "observe": ["r"]})
+            dmeta[jid] = (k, [t for _, t in order], cands)
+    dres = vf.run_jobs(dj, "c05-deep")
+    for j in dj:
+        k, want, cands = dmeta[j["id"]]
+        o = dres[j["id"]]
+        oc = vf.job_outcome(o)
+        chk.count(1)
+        chk.nontrivial(j["src"])
+        got = [int(x["v"]) for x in o["values"]["r"]["v"]] if oc == "ok" and o["values"]["r"].get("t") == "seq" else oc + " " + str(o.get("compile", {}).get("class"))
+        if got != want:
+            chk.violation("deep call site: expected the bodies %s to run, observed %s\n%s" % (want, got, j["src"]),
+                          {"kind": "overload", "source": j["src"], "expected": {"r": "unique-seq", "tags": want}, "observed": got, "cands": cands, "args": []},
+                          finding_key="overload-deep:%s" % (list(k),))
+    chk.part("deep_sites", programs=len(dj))
     tj = [{"id": t[0], "src": t[1] + "\n", "observe": list(t[2])} for t in template_programs()]
     tres = vf.run_jobs(tj, "c05-templates")
     for t, j in zip(template_programs(), tj):
@@ -182,7 +226,9 @@ def replay(chk, path):
     chk.sample({"source": rp["source"], "outcome": oc, "values": o.get("values")})
     if rp["kind"] == "overload":
         want = rp["expected"]
-        if want["r"] == "unique":
+        if want["r"] == "unique-seq":
+            good = oc == "ok" and o["values"]["r"].get("t") == "seq" and [int(x["v"]) for x in o["values"]["r"]["v"]] == want["tags"]
+        elif want["r"] == "unique":
             good = oc == "ok" and o["values"]["r"].get("v") == str(want["tag"])
         else:
             good = oc == "compile_err" and o["compile"].get("class") == want["r"]
